@@ -2387,14 +2387,19 @@ def bincount(x, weights=None, minlength=0):
 
 
 def repeat(a, repeats):
-    a = asarray(a)
+    a = asarray(a).ravel()
     r = asarray(repeats)
+    rcells = r._cells()
+    if r.ndim == 0 or (r.ndim == 1 and len(rcells) == 1 and a.size != 1):
+        rcells = [rcells[0]] * a.size          # one count for every element
+    elif len(rcells) != a.size:
+        raise ValueError("operands could not be broadcast together with shape (%d,) (%d,)" % (a.size, len(rcells)))
     tot_t = 0
-    for c in r._cells():
+    for c in rcells:
         tot_t = _arith("add", tot_t, c)
     tot = E().concretize(tot_t) if is_sym(tot_t) else tot_t
     ends, run = [], 0
-    for c in r._cells():
+    for c in rcells:
         run = _arith("add", run, c)
         ends.append(run)
     vals = a._cells()
